@@ -25,6 +25,7 @@
 #include <malloc.h>
 #include <dlfcn.h>
 #include <limits.h>
+#include <sys/wait.h>
 #include "vf_rt.h"
 
 #ifdef OVR_HAS_CFREE      /* only where the platform libc still provides it to newly linked programs (glibc < 2.26) */
@@ -63,6 +64,7 @@ static ovr_visit_fn q_visit = NULL;
 static int ovr_have_mi = 0;
 static int ovr_count_used = 1;
 static long ovr_page = 4096;
+static int ovr_libcxx = 0;           /* the override library under test was compiled as C++ (told by the check: --lib cxx) */
 
 static void ovr_resolve(void) {
   q_inheap = (ovr_bool (*)(const void*))dlsym(RTLD_DEFAULT, "mi_is_in_heap_region");
@@ -117,17 +119,17 @@ static void ovr_log_call(const char* ep, int id, long n, size_t al, int zero, lo
   ovr_log_obs();
   vf_logf("}"); vf_log_line_end(); vf_in_call = 1;
 }
-typedef struct { int null; int id; void* a; size_t us, z, wr, keep; uint32_t gen; int rc, err, outkeep, inheap; long used; } ovr_ret;
+typedef struct { int null; int id; void* a; size_t us, z, wr, keep; uint32_t gen; int rc, err, outkeep, inheap; long used; const char* out; int sig; } ovr_ret;
 static void ovr_log_ret(const char* ep, const ovr_ret* r) {
   vf_in_call = 0;
-  vf_logf("{\"e\":\"ret\",\"t\":0,\"op\":\"%s\",\"null\":%s,\"id\":%d,\"a\":[%ld,%ld],\"us\":%zu,\"z\":%zu,\"gen\":%u,\"wr\":%zu,\"keep\":%zu,\"rc\":%d,\"errno\":%d,\"outkeep\":%s,\"res\":true,\"h\":0,\"nvisited\":0,\"inheap\":%d,\"used\":%ld",
+  vf_logf("{\"e\":\"ret\",\"t\":0,\"op\":\"%s\",\"null\":%s,\"id\":%d,\"a\":[%ld,%ld],\"us\":%zu,\"z\":%zu,\"gen\":%u,\"wr\":%zu,\"keep\":%zu,\"rc\":%d,\"errno\":%d,\"outkeep\":%s,\"res\":true,\"h\":0,\"nvisited\":0,\"inheap\":%d,\"used\":%ld,\"out\":\"%s\",\"sig\":%d",
           ep, r->null ? "true" : "false", r->id, VF_HI(r->a), VF_LO(r->a), r->us, r->z, r->gen, r->wr, r->keep, r->rc, r->err,
-          r->outkeep ? "true" : "false", r->inheap, r->used);
+          r->outkeep ? "true" : "false", r->inheap, r->used, r->out ? r->out : "", r->sig);
   ovr_log_obs();
   vf_logf("}"); vf_log_line_end();
 }
 static void ovr_log_cfg(const char* mode, const char* lang) {
-  vf_logf("{\"e\":\"cfg\",\"mode\":\"%s\",\"lang\":\"%s\",\"have_mi\":%d,\"page\":%ld}", mode, lang, ovr_have_mi, ovr_page);
+  vf_logf("{\"e\":\"cfg\",\"mode\":\"%s\",\"lang\":\"%s\",\"have_mi\":%d,\"page\":%ld,\"libcxx\":%d}", mode, lang, ovr_have_mi, ovr_page, ovr_libcxx);
   vf_log_line_end();
 }
 static void ovr_log_seen(const char* what, const void* p, size_t n) {
@@ -156,6 +158,7 @@ static char ovr_pathsrc[PATH_MAX];    /* argument of realpath */
 static char ovr_pathres[PATH_MAX];    /* its resolution, obtained with the non-allocating form */
 
 #ifdef __cplusplus
+static int   ovr_cpp_try_new(const char* ep, size_t n, size_t al);   /* 10 nullptr, 11 a pointer, 12 std::bad_alloc, 13 other exception */
 static void* ovr_cpp_alloc(const char* ep, size_t n, size_t al);
 static int   ovr_cpp_release(const char* ep, void* p, size_t n, size_t al);
 #endif
@@ -211,10 +214,39 @@ static void ovr_new_block(const char* ep, int rid, void* q, size_t req, size_t a
   r->id = b->id; r->a = q; r->us = us; r->gen = b->gen; r->wr = b->wr;
 }
 
+/* one step: an operator new form with an unsatisfiable size (no new-handler installed).  The call runs in a forked copy of
+   the process (same allocator state), so that an abort() inside the allocator ends only that copy; how it ended is logged. */
+static void ovr_step_failnew(const char* ep, size_t al) {
+  ovr_log_call(ep, 0, -1, al, 0, -1);
+  ovr_ret r; memset(&r, 0, sizeof(r));
+  r.null = 1; r.outkeep = 1; r.used = -1; r.out = "exit";
+#ifdef __cplusplus
+  vf_log_flush();
+  pid_t c = fork();
+  if (c == 0) {
+    vf_log_fd = -1; vf_loglen = 0;                      /* the copy logs nothing */
+    signal(SIGABRT, SIG_DFL); signal(SIGSEGV, SIG_DFL); signal(SIGBUS, SIG_DFL); signal(SIGALRM, SIG_DFL);
+    int nul = open("/dev/null", O_WRONLY); if (nul >= 0) dup2(nul, 2);   /* the allocator's diagnostics */
+    alarm(20);
+    _exit(ovr_cpp_try_new(ep, ((size_t)1) << 62, al));
+  }
+  int st = 0;
+  if (c > 0 && waitpid(c, &st, 0) == c) {
+    if (WIFSIGNALED(st)) { r.out = "abort"; r.sig = WTERMSIG(st); }
+    else if (WIFEXITED(st)) {
+      switch (WEXITSTATUS(st)) { case 10: r.out = "null"; break; case 11: r.out = "nonnull"; break; case 12: r.out = "threw"; break;
+                                 case 13: r.out = "threw_other"; break; default: r.out = "exit"; r.sig = WEXITSTATUS(st); }
+    }
+  }
+#endif
+  ovr_log_ret(ep, &r);
+}
+
 /* one step: an allocating entry point */
 static void ovr_step_alloc(const char* ep, long n, size_t al) {
   int rid = ovr_nextrid++;
   if (rid >= OVR_MAXB) return;
+  if (n < 0 && strncmp(ep, "new", 3) == 0) { ovr_step_failnew(ep, al); return; }
   if (ovr_streq(ep, "valloc") || ovr_streq(ep, "pvalloc")) al = (size_t)ovr_page;
   size_t req = ovr_req(ep, n);
   if (ovr_is_str(ep) && !ovr_streq(ep, "realpath")) {
@@ -365,6 +397,7 @@ static int ovr_main(int argc, char** argv, const char* lang) {
   const char* out = NULL; const char* prog = NULL; const char* mode = "?"; const char* dir = "/"; unsigned wd = 60;
   for (int i = 1; i + 1 < argc; i += 2) {
     if (ovr_streq(argv[i], "--watchdog")) wd = (unsigned)atoi(argv[i + 1]);
+    if (ovr_streq(argv[i], "--lib")) ovr_libcxx = ovr_streq(argv[i + 1], "cxx");
     if (ovr_streq(argv[i], "--out")) out = argv[i + 1];
     else if (ovr_streq(argv[i], "--prog")) prog = argv[i + 1];
     else if (ovr_streq(argv[i], "--mode")) mode = argv[i + 1];
@@ -421,6 +454,7 @@ static int ovr_x_open(int argc, char** argv, const char* lang, const char** dir)
     if (ovr_streq(argv[i], "--out")) out = argv[i + 1];
     else if (ovr_streq(argv[i], "--mode")) mode = argv[i + 1];
     else if (ovr_streq(argv[i], "--dir")) *dir = argv[i + 1];
+    else if (ovr_streq(argv[i], "--lib")) ovr_libcxx = ovr_streq(argv[i + 1], "cxx");
   }
   if (!out) return 2;
   ovr_resolve();
